@@ -464,7 +464,23 @@ func rwExec(calls []string, shape string, fault int) ([]rwItem, string) {
 			case "STR":
 				b := pay.take(num(2))
 				before := len(core.body)
-				e = c.String(num(1), "%s", string(b))
+				// String(code, format, values...) must send Sprintf(format, values...): three shapes of the same b
+				switch {
+				case len(b)%3 == 1 && len(b) >= 2:
+					// the format alone, with literal percent signs written "%%" (no values)
+					bb := append([]byte(nil), b...)
+					bb[0], bb[len(bb)-1] = '%', '%'
+					b = bb
+					e = c.String(num(1), strings.ReplaceAll(string(b), "%", "%%"))
+				case len(b)%3 == 2 && len(b) >= 4:
+					// several verbs and a literal percent sign
+					bb := append([]byte(nil), b...)
+					bb[0], bb[1] = '7', '%'
+					b = bb
+					e = c.String(num(1), "%d%%%s", 7, string(b[2:]))
+				default:
+					e = c.String(num(1), "%s", string(b))
+				}
 				expected = append(expected, b[:min(len(b), len(core.body)-before)]...)
 			case "BLOB":
 				b := pay.take(num(2))
